@@ -24,8 +24,14 @@ static std::string classify_sanitizer(const std::string &err) {
     size_t p = err.find("ERROR: AddressSanitizer: ");
     if (p != std::string::npos) {
         p += strlen("ERROR: AddressSanitizer: ");
-        size_t e = err.find_first_of(" \n", p);
-        return "san:" + err.substr(p, e - p);
+        size_t e = err.find('\n', p);
+        std::string line = err.substr(p, e - p);
+        for (const char *stop : {" on address", " on ", " in ", " (", ":"}) {
+            size_t q = line.find(stop);
+            if (q != std::string::npos) line.resize(q);
+        }
+        std::replace(line.begin(), line.end(), ' ', '_');
+        return "san:" + line;
     }
     p = err.find("ERROR: LeakSanitizer");
     if (p != std::string::npos) return "san:leak";
